@@ -6,6 +6,7 @@ use crate::plan::*;
 use crate::prng::Rng;
 use crate::subjects::{catalogue, Subject};
 
+pub mod alloc;
 pub mod bytesgen;
 pub mod corrupt;
 pub mod frames;
@@ -15,7 +16,7 @@ pub mod stacks;
 pub mod wire;
 
 pub fn all() -> Vec<&'static dyn Scenario> {
-    vec![&wire::Wire, &corrupt::Corrupt, &corrupt::CorruptSweep, &stacks::Stacks, &stacks::Count, &skip::Skip, &frames::Frames, &sinks::Sinks]
+    vec![&wire::Wire, &corrupt::Corrupt, &corrupt::CorruptSweep, &stacks::Stacks, &stacks::Count, &skip::Skip, &frames::Frames, &sinks::Sinks, &alloc::Alloc, &alloc::AllocMass]
 }
 
 pub fn by_name(n: &str) -> Option<&'static dyn Scenario> {
